@@ -33,6 +33,7 @@ import json
 import lzma
 import math
 import pickle
+import sys
 import zlib
 
 from pymemcache import serde as S
@@ -138,6 +139,8 @@ CONSTS = {
     "1.5": 1.5, "0.0": 0.0, "-0.0": -0.0, "inf": float("inf"), "-inf": float("-inf"),
     "nan": float("nan"), "1e308": 1e308, "5e-324": 5e-324, "0.1": 0.1,
     "1+2j": 1 + 2j, "Ellipsis": Ellipsis, "RED": Color.RED, "range3": range(3),
+    "pi": math.pi, "0.1+0.2": 0.1 + 0.2, "1/3": 1 / 3, "floatmax": sys.float_info.max, "2**53+2": 2.0 ** 53 + 2,
+    "-1/3": -1 / 3, "1e-7/3": 1e-7 / 3,
     "Outer.Shade.DARK": Outer.Shade.DARK, "Outer.NObj": Outer.NObj(a=1), "Outer.NInt-class": Outer.NInt,
 }
 
@@ -314,6 +317,10 @@ def leaves():
           ["s", "esc", "\\ufeff"], ["s", "esc", "\\ufeffabc"], ["s", "esc", "\\ufeff\\ufeffx"],
           ["s", "esc", "\\ufffe"], ["s", "esc", "a\\u0300"], ["s", "esc", "\\x85\\u2028"]]
     L += [["b", "hex", "efbbbf41"], ["b", "hex", "fffe4100"]]
+    # bytes that happen to look like the output of a codec (magic numbers; a real short compressed stream)
+    L += [["b", "hex", zlib.compress(b"hi").hex()], ["b", "hex", "789c"], ["b", "hex", "789c4bcb07"], ["b", "hex", "425a6839"],
+          ["b", "hex", bz2.compress(b"hi").hex()], ["b", "hex", "fd377a585a00"], ["b", "hex", lzma.compress(b"hi").hex()],
+          ["b", "hex", "1f8b0800"]]
     for n in (9, 10, 11, 399, 400, 401, 5000):
         L.append(["s", "a", n])
     L += [["s", "e", 5], ["s", "ae", 4], ["s", "ae", 5], ["s", "e", 200], ["s", "ae", 199], ["s", "ae", 200],
@@ -327,7 +334,8 @@ def leaves():
         L += [["i", "digits", 1, n], ["i", "digits", -1, n]]
     # bool None float and other picklable scalars
     for name in ("True", "False", "None", "1.5", "0.0", "-0.0", "inf", "-inf", "nan", "1e308", "5e-324",
-                 "0.1", "1+2j", "Ellipsis", "RED", "range3", "Outer.Shade.DARK", "Outer.NObj", "Outer.NInt-class"):
+                 "0.1", "1+2j", "Ellipsis", "RED", "range3", "Outer.Shade.DARK", "Outer.NObj", "Outer.NInt-class",
+                 "pi", "0.1+0.2", "1/3", "floatmax", "2**53+2", "-1/3", "1e-7/3"):
         L.append(["c", name])
     L.append(["bytearray", ["b", "a", 3]])
     L.append(["bytearray", ["b", "rand", 401]])
